@@ -140,6 +140,16 @@ def guard_set(atom, var):
             return ISet.range(c, c)
         return ISet.range(c, c).complement()
     if op in ('in', 'notin') and atom.args[0] is var and \
+            isinstance(atom.args[1], Sym) and atom.args[1].op == 'range' \
+            and all(isinstance(x, int) and not isinstance(x, bool)
+                    for x in atom.args[1].args) and \
+            1 <= len(atom.args[1].args) <= 3 and \
+            (len(atom.args[1].args) < 3 or atom.args[1].args[2] == 1):
+        ra = atom.args[1].args
+        lo, hi = (0, ra[0]) if len(ra) == 1 else ra[:2]
+        s = ISet.range(lo, hi - 1) if hi > lo else ISet.empty()
+        return s if op == 'in' else s.complement()
+    if op in ('in', 'notin') and atom.args[0] is var and \
             isinstance(atom.args[1], tuple) and \
             all(isinstance(x, int) for x in atom.args[1]):
         s = ISet([(x, x) for x in atom.args[1]])
